@@ -39,6 +39,7 @@ class Contract(object):
         self.cover = kw.pop("cover", True)
         self.kf = kw.pop("kf", {})
         self.order_insensitive = kw.pop("order_insensitive", False)   # emit `deterministic` obligations for ordered results of unordered iterations
+        self.static = kw.pop("static", False)            # a staticmethod: no receiver parameter
         self.skip_body = kw.pop("skip_body", False)      # only the expr_eq obligations of this function are generated (labelled)
         self.expr_eq = list(kw.pop("expr_eq", []))       # [(code expression text, {free var: Ty}, spec expression)]
         self.no_merge = kw.pop("no_merge", ())           # '*' or line numbers of ifs whose branches are kept as separate paths
